@@ -114,6 +114,14 @@ class Sim:
         os.unlink(self.arr.path(d, rel))
         self.log('delete %s/%r' % (d, rel))
 
+    def fs_wipe_disk(self):
+        """remove every file of one data disk (needs --force-empty at the next sync)"""
+        d = self.rng.choice(self.arr.disks)
+        for dd, rel in self.existing_files():
+            if dd == d:
+                os.unlink(self.arr.path(d, rel))
+        self.log('wipe all files of %s' % d)
+
     def fs_move(self):
         pf = self.pick_file()
         if pf is None:
@@ -201,6 +209,8 @@ class Sim:
         if getattr(self, 'churn', False):
             # pending-churn mode: mostly re-touch what is pending, and create copies (provisional hashes)
             ops = [(self.fs_create, 2), (self.fs_modify, 3), (self.fs_delete, 2), (self.fs_move, 2), (self.fs_copy, 5), (self.fs_touch, 5)]
+        if self.rng.chance(1, 12):
+            ops = ops + [(self.fs_wipe_disk, 2)]
         if self.links and not getattr(self, 'churn', False):
             ops += [(self.fs_link, 1), (self.fs_dir, 1)]
         tot = sum(w for _, w in ops)
